@@ -63,6 +63,16 @@ def gen_cases(rng, tier):
         mode = rng.choice(["thick", "thick", "thick", "thin", "blocks_cds"])
         cases.append({"k": "bed", "tx": tx, "mode": mode, "color": rng.choice([None, None, "255, 0,0", " 1,2,3 "]),
                       "name_field": rng.choice(["ID", "ID", "Name", "nope"]), "seed": rng.randrange(1 << 30)})
+    # block types that INCLUDE the thick type (the usage bed12's docstring recommends): 5'UTR + CDS + 3'UTR tile the
+    # transcript, thick = CDS - the thick bounds then differ from the transcript's own bounds
+    for i in range(max(30, n // 12)):
+        s0 = rng.choice([1, 5, 100, 131000])
+        a = s0 + rng.randrange(1, 40)
+        b = a + rng.randrange(0, 60)
+        e0 = b + rng.randrange(1, 40)
+        tx = {"s": s0, "e": e0, "strand": rng.choice("+-"), "exons": [], "cds": [[a, b]], "utr": [[s0, a - 1], [b + 1, e0]],
+              "score": ".", "name": True, "order": rng.choice(["asc", "desc", "shuffle"])}
+        cases.append({"k": "bed", "tx": tx, "mode": "tiled", "color": None, "name_field": "ID", "seed": rng.randrange(1 << 30)})
     for i in range(n // 2):
         cases.append({"k": "tobed", "tx": gen_tx(rng), "mode": "thick", "color": None, "name_field": rng.choice(["ID", "Name", "nope"]),
                       "seed": rng.randrange(1 << 30)})
@@ -83,7 +93,7 @@ def valid_case(c):
     try:
         if c["k"] in ("bed", "tobed"):
             tx = c["tx"]
-            if not (1 <= tx["s"] <= tx["e"]) or tx["strand"] not in "+-" or c["mode"] not in ("thick", "thin", "blocks_cds"):
+            if not (1 <= tx["s"] <= tx["e"]) or tx["strand"] not in "+-" or c["mode"] not in ("thick", "thin", "blocks_cds", "tiled"):
                 return False
             for key in ("exons", "cds", "utr"):
                 last = 0
@@ -167,6 +177,8 @@ def run_impl(c):
         kw.update(thick_featuretype=None, thin_featuretype=["UTR"])
     elif c["mode"] == "blocks_cds":
         kw.update(block_featuretype=["CDS"], thick_featuretype=["CDS"])
+    elif c["mode"] == "tiled":
+        kw.update(block_featuretype=["UTR", "CDS"], thick_featuretype="CDS")
     out = {}
     for tag, arg in (("by_id", "tx1"), ("by_feature", None)):
         try:
@@ -203,6 +215,9 @@ def coq_case(c, o):
         blocks, mode = kid_rows(tx, "exons", "exon"), "(ThickBy %s)" % L.lst(kid_rows(tx, "cds", "CDS"), "row")
     elif c["mode"] == "thin":
         blocks, mode = kid_rows(tx, "exons", "exon"), "(ThinBy %s)" % L.lst(kid_rows(tx, "utr", "UTR"), "row")
+    elif c["mode"] == "tiled":
+        (u1, u2), (c1,) = kid_rows(tx, "utr", "UTR"), kid_rows(tx, "cds", "CDS")
+        blocks, mode = [u1, c1, u2], "(ThickBy %s)" % L.lst([c1], "row")
     else:
         blocks, mode = kid_rows(tx, "cds", "CDS"), "(ThickBy %s)" % L.lst(kid_rows(tx, "cds", "CDS"), "row")
     a = "CBed %s %s %s %s %s %s %s" % (feat, L.lst(blocks, "row"), mode, nm, L.opt(c["color"], L.s, "str"), L.res(o["by_id"], L.s),
